@@ -4,6 +4,9 @@
 //	vh-crypto trace-sig  -out trace.ndjson -n TRACES
 //	vh-crypto empty-multisig
 //	vh-crypto replay-keybase -in behaviours -variants mem,lazy [-sample N -offset O]
+//	vh-crypto replay-codec   -in behaviours [-known F-...]
+//	vh-crypto trace-codec    -out trace.ndjson -n TRACES
+//	vh-crypto list-cases
 //	vh-crypto trace-keybase  -out trace.ndjson -n TRACES -steps K -variants mem,lazy
 package main
 
@@ -27,6 +30,10 @@ func main() {
 	steps := fs.Int("steps", 30, "steps per trace")
 	sample := fs.Int("sample", 1, "replay only every sample-th behaviour")
 	offset := fs.Int("offset", 0, "offset of the sampled behaviours")
+	npass := fs.Int("npass", 2, "number of passphrase ids of the specification instance")
+	shard := fs.Int("shard", 0, "shard index (replay-codec)")
+	nshards := fs.Int("nshards", 1, "number of shards: only behaviours with index = shard mod nshards are replayed")
+	known := fs.String("known", "", "comma separated ids of known findings (counted instead of reported)")
 	knownEmpty := fs.Bool("known-empty-multisig", false, "count (instead of reporting) the known empty-multisig deviation")
 	_ = fs.Parse(os.Args[2:])
 	switch cmd {
@@ -35,13 +42,17 @@ func main() {
 	case "trace-sig":
 		traceSig(*out, *n)
 	case "replay-keybase":
-		replayKeybase(*in, *variants, *sample, *offset)
+		replayKeybase(*in, *variants, *sample, *offset, *npass)
 	case "trace-keybase":
 		traceKeybase(*out, *n, *steps, *variants)
+	case "replay-codec":
+		replayCodec(*in, *known, *shard, *nshards)
+	case "trace-codec":
+		traceCodec(*out, *n)
+	case "list-cases":
+		listCases()
 	case "empty-multisig":
 		emptyMultisig()
-	case "probe":
-		probe()
 	default:
 		fmt.Fprintln(os.Stderr, "unknown command", cmd)
 		os.Exit(2)
